@@ -56,6 +56,31 @@ def _lex_total_text(text):
     return lex_total(text)
 
 
+LINE_RUNS = ["/* " + "*" * 74 + " */", "// c", "/* c */", "#define A 1", "# include <a.h>", "int\tg_a;", "int\tf(void);", "}", "{", "(", ")", ";",
+             "", "\t", "\tif (a)", "\ta = 1;", "\"s\"", "#", "#if 1", "typedef int\tt_a;", "struct s_a", "a", "\\"]
+LINE_RUN_LENGTHS = (30, 100, 300)
+
+
+def line_run_family(lengths=LINE_RUN_LENGTHS):
+    """The same line n times (n = 30, 100, 300), alone and in front of a function: polynomial blow-ups in a rule (a
+    regular expression over everything collected so far, a look-behind over the whole history) show as a time-out."""
+    func = "int\tmain(void)\n{\n\treturn (0);\n}\n"
+    for li, line in enumerate(LINE_RUNS):
+        for n in lengths:
+            yield (f"linerun:{li}^{n}:alone", (line + "\n") * n)
+            yield (f"linerun:{li}^{n}:before-function", (line + "\n") * n + func)
+
+
+def _pipeline_total_text(task):
+    fname, text = task
+    # no fuel counter here: quadratic work on 300 repeated lines is slow but legitimate; the wall-clock deadline of
+    # the batch decides (the linear fuel bound is for single statements and short files)
+    r = impl.run_text(fname, text)
+    if r.exc is None or r.exc[0] == "CParsingError":
+        return None
+    return f"{r.exc[0]}@{r.exc[2]}", f"{r.exc[0]}: {r.exc[1][:100]} (in {r.exc[2]})"
+
+
 def trie_task(task):
     alpha_name, prefix, extra = task
     alpha = lexcommon.ALPHABETS[alpha_name]
@@ -162,6 +187,9 @@ def seed_task(task):
             judge(base, "prefix", i)
             if not base.endswith("\n"):
                 judge(base + "\n", "prefix+nl", i)
+            else:
+                judge(base + " ", "prefix+blank", i)       # the file ends in a line made of one blank
+                judge(base + "\t\t", "prefix+tabs", i)
         return n, out
     nonblank = [i for i in range(start, len(toks)) if toks[i].type not in ("SPACE", "TAB")]
     idx = nonblank[::stride]
@@ -227,6 +255,18 @@ def run(tier, seed):
             failures.append(Failure("C05", f"{r[0]}:run:{cname}:{size}", f"{r[1]}; input {label}", {"kind": "lex", "text": text}))
     st.bump("lexer_strings", nstr)
     st.runs += nstr
+    # ---- whole pipeline on runs of one line, under the wall-clock deadline
+    lfam = [(label, ("t.h" if k % 2 else "t.c", text)) for k, (label, text) in enumerate(line_run_family((40, 150) if tier == "quick" else LINE_RUN_LENGTHS))]
+    lres = explore.pmap_timeout(_pipeline_total_text, [t for _, t in lfam], WALL_LIMIT)
+    for (label, (fn, text)), r in zip(lfam, lres):
+        st.runs += 1
+        if r == explore.TIMEOUT:
+            r = ("pipeline:wall-clock-limit", f"no answer within {WALL_LIMIT:.0f} s")
+        if r:
+            li = int(label.split(":")[1].split("^")[0])
+            failures.append(Failure("C05", f"{r[0] if r[0].startswith('pipeline') else 'pipeline:' + r[0]}:linerun:{LINE_RUNS[li][:12]!r}",
+                                    f"{r[1]}; input {label} ({LINE_RUNS[li]!r} x n)", {"kind": "linerun", "fname": fn, "text": text}))
+    st.bump("line_run_inputs", len(lfam))
     # ---- (S) pipeline: seeds and deviations
     cs = carriers.conforming("quick", cap=60 if tier == "quick" else 500)
     vs = carriers.violating("quick", per_op=1 if tier == "quick" else 2)
@@ -319,6 +359,13 @@ def replay(payload):
         r = res[0]
         if r == explore.TIMEOUT:
             return [Failure("C05", "lexer:wall-clock-limit", "no answer within the wall-clock limit", payload)]
+        return [Failure("C05", r[0], r[1], payload)] if r else []
+    if payload["kind"] == "linerun":
+        res = explore.pmap_timeout(_pipeline_total_text, [(payload["fname"], payload["text"]), ("t.c", "a"), ("t.c", "b"), ("t.c", "c")], WALL_LIMIT)
+        explore.close_pool()
+        r = res[0]
+        if r == explore.TIMEOUT:
+            return [Failure("C05", "pipeline:wall-clock-limit", "no answer within the wall-clock limit", payload)]
         return [Failure("C05", r[0], r[1], payload)] if r else []
     if payload["kind"] == "cli":
         o = progrun.cli_text((payload["fname"], payload["text"], ["--no-colors"]))
